@@ -83,6 +83,11 @@ pub struct Inner {
     pub timer_read_gen: u64,
     pub timer_done_gen: u64,
     pub fired: usize,
+    pub timer_parked: bool,
+    pub add_gen: u64,
+    pub read_add_gen: u64,
+    pub done_add_gen: u64,
+    pub park_add_gen: u64,
     // which primitive owns a blocker (learnt at the primitive's `*.push` / `*.reg` point)
     pub owner: HashMap<usize, &'static str>,
 }
@@ -138,6 +143,11 @@ impl Ctrl {
                 timer_read_gen: 0,
                 timer_done_gen: 0,
                 fired: 0,
+                timer_parked: false,
+                add_gen: 0,
+                read_add_gen: 0,
+                done_add_gen: 0,
+                park_add_gen: 0,
                 owner: HashMap::new(),
             }),
             cv: Condvar::new(),
@@ -360,11 +370,15 @@ impl Ctrl {
 
     /// after a tick: wait (bounded) until the timer thread has looked at the new time and is idle
     /// again, or some actor moved
-    pub fn timer_quiet(&self, max_ms: u64) -> bool {
+    pub fn timer_quiet(&self, max_ms: u64, fired_before: usize) -> bool {
         let g = self.lock();
         let (g, to) = self
             .cv
-            .wait_timeout_while(g, Duration::from_millis(max_ms), |x| x.timer_done_gen < x.tick_gen)
+            .wait_timeout_while(g, Duration::from_millis(max_ms), |x| {
+                let parked_quiet = x.timer_parked && x.park_add_gen == x.add_gen;
+                let polled_quiet = x.timer_done_gen >= x.tick_gen && x.done_add_gen >= x.add_gen;
+                !parked_quiet && !polled_quiet && x.fired == fired_before
+            })
             .unwrap_or_else(|p| p.into_inner());
         drop(g);
         !to.timed_out()
@@ -464,17 +478,32 @@ impl may::verif::Controller for Ctrl {
             "timer.add" => {
                 if g.vclock.is_some() {
                     g.timers.push(a as u64);
-                    g.tick_gen += 1;
                 }
             }
             "timer.thread" => {
                 IS_TIMER.with(|c| c.set(true));
             }
-            "timer.idle" | "timer.park" => {
+            "timer.added" => {
+                g.add_gen += 1;
+            }
+            "timer.idle" => {
                 g.timer_done_gen = g.timer_read_gen;
+                g.done_add_gen = g.read_add_gen;
+            }
+            "timer.park" => {
+                g.timer_done_gen = g.timer_read_gen;
+                g.done_add_gen = g.read_add_gen;
+                g.park_add_gen = g.read_add_gen;
+                g.timer_parked = true;
+            }
+            "timer.unpark" => {
+                g.timer_parked = false;
             }
             "timer.fire" => {
+                // the coroutine has been taken out of its slot and is about to be resumed on the
+                // timer thread: it is no longer suspended
                 g.fired += 1;
+                g.co.insert(a, CoSt::Queued);
             }
             "tp.wait" => {
                 let t = ACTOR.with(|c| c.get());
@@ -528,7 +557,7 @@ impl may::verif::Controller for Ctrl {
             };
             g.notes.push((who, kind, a, b));
         }
-        if !matches!(kind, "timer.idle" | "timer.park" | "timer.unpark" | "timer.thread" | "sb.new") {
+        if !matches!(kind, "timer.idle" | "timer.park" | "timer.unpark" | "timer.thread" | "timer.added" | "sb.new") {
             g.change += 1;
         }
         self.cv.notify_all();
@@ -539,6 +568,7 @@ impl may::verif::Controller for Ctrl {
         let mut g = self.lock();
         if IS_TIMER.with(|c| c.get()) {
             g.timer_read_gen = g.tick_gen;
+            g.read_add_gen = g.add_gen;
         }
         g.vclock
     }
